@@ -13,7 +13,7 @@ CONSTANTS
   MaxUnkAcks = 1
   MaxReplies = 2
   MaxDupReplies = 1
-  MaxUnkReplies = 1
+  MaxUnkReplies = 0
   MaxInCalls = 0
   MaxFaults = 0
   MaxExpire = 0
